@@ -606,6 +606,37 @@ def m_object(I_, args, kws, st, ctx, k, node):
   return k(st, st.alloc("obj", object, {}))
 
 
+def m_forall(I_, args, kws, st, ctx, k, node):
+  """pyvc.api.forall(lo, hi, fn): for every integer j with lo <= j < hi, fn(j) holds"""
+  lo, hi, fn = args
+  j = fresh_int("fa")
+  res = []
+  c2 = ctx.replace(exc_k=lambda s, e: (_ for _ in ()).throw(Unsupported("quantified contract body raised %r" % (e,))))
+  s2 = st.copy()
+  s2.add(z3.And(j >= zint(lo), j < zint(hi)))
+  I_.call_value(fn, [j], {}, s2, c2, lambda s, v: res.append((s, v)), node)
+  # the body must be a pure predicate: combine its outcomes into one formula
+  n0 = len(st.pc) + 1
+  parts = []
+  for s, v in res:
+    tv = []
+    I_.truth(v, s, c2, lambda s3, t: tv.append((s3, t)), node)
+    for s3, t in tv:
+      extra = s3.pc[n0:]
+      parts.append(z3.Implies(zand(*extra) if extra else z3.BoolVal(True), zbool(t) if not is_sym(t) else t))
+  body = zand(*parts) if parts else True
+  q = z3.ForAll([j], z3.Implies(z3.And(j >= zint(lo), j < zint(hi)), body if is_sym(body) else z3.BoolVal(bool(body))))
+  return k(st, q)
+
+
+def m_exists(I_, args, kws, st, ctx, k, node):
+  lo, hi, fn = args
+  neg = []
+  def inner(I2, a2, kw2, st2, ctx2, k2, node2):
+    raise Unsupported("exists")
+  raise Unsupported("exists() in contracts: state the witness explicitly")
+
+
 def m_reduce(I_, args, kws, st, ctx, k, node):
   f, seq = args[0], args[1]
   def got(st2, items):
@@ -905,6 +936,8 @@ _TABLE = {
 _UNION_AWARE.update([builtins.isinstance, builtins.len, builtins.type, builtins.bool, builtins.hasattr,
                      builtins.getattr, builtins.setattr, builtins.callable, builtins.int, builtins.str,
                      builtins.bytes, builtins.hash, builtins.id, builtins.repr])
+from . import api as _api
+_TABLE[_api.forall] = m_forall
 import functools as _functools
 import operator as _operator
 _TABLE[_functools.reduce] = m_reduce
